@@ -83,6 +83,7 @@ Print Assumptions C07_decision.
 Theorem C07_complete :
   forall (poseidon : list Z -> Z) (q : Z) (maxlev : nat) (D SigT SK : Type)
          (sig_verify : Z -> Z -> Z -> SigT -> bool) (pubx puby : SK -> Z) (sign : SK -> Z -> SigT)
+         (json_rt : Z -> option Z)
          (resolve_did : D -> Z -> did_answer) (id_from_did : D -> Z -> option Z)
          (genesis_check : Z -> Z -> option bool) (reg : registry),
   (forall sk m, sig_verify (pubx sk) (puby sk) m (sign sk m) = true) ->
@@ -103,10 +104,46 @@ Theorem C07_complete :
       Some (honest_answer poseidon SK omit s' (claim_nonce (is_auth SK s))) ->
     wf maxlev (is_rt SK s') -> tree_in_field q (is_rt SK s') -> 0 <= is_ror SK s' < q ->
     claim_nonce (is_auth SK s) < q -> ~ In (claim_nonce (is_auth SK s)) (keys (is_rt SK s')) ->
+    (* the status entry's nonce survives the JSON decoder: issuerData.credentialStatus is an
+       interface{}, so encoding/json reads the number as float64 (json_rt = that round trip, an
+       external function recorded per run; it is the identity below 2^53) *)
+    json_rt (claim_nonce (is_auth SK s)) = Some (claim_nonce (is_auth SK s)) ->
     verify_bjj poseidon q D SigT sig_verify resolve_did id_from_did genesis_check reg
-      (issue_bjj poseidon D SigT SK sign omit s c did ty) = Ok tt.
+      (issue_bjj poseidon D SigT SK sign json_rt omit s c did ty) = Ok tt.
 Proof. exact bjj_complete. Qed.
 Print Assumptions C07_complete.
+
+(* REFUTED without that hypothesis (known finding D22): if the decoder's round trip changes the
+   nonce (2^53+1 becomes 2^53), the honestly issued bundle - every other hypothesis of
+   C07_complete holding - is rejected with "revocation nonce mismatch".  Concrete witness:
+   Verify/Examples78.v ex_bjj_complete_refuted_big_nonce; on /repo: the driver's scenario
+   `nonce-not-float64` (classifier c07-honest-rejected-nonce-not-float64). *)
+Theorem C07_complete_refuted_json_number :
+  forall (poseidon : list Z -> Z) (q : Z) (maxlev : nat) (D SigT SK : Type)
+         (sig_verify : Z -> Z -> Z -> SigT -> bool) (pubx puby : SK -> Z) (sign : SK -> Z -> SigT)
+         (json_rt : Z -> option Z)
+         (resolve_did : D -> Z -> did_answer) (id_from_did : D -> Z -> option Z)
+         (genesis_check : Z -> Z -> option bool) (reg : registry),
+  (forall sk m, sig_verify (pubx sk) (puby sk) m (sign sk m) = true) ->
+  0 < q -> q <= 2 ^ 256 -> (forall l, 0 <= poseidon l < q) -> (1 <= maxlev <= 241)%nat ->
+  forall (omit : bool) (s s' : issuer_state SK) (c : claim) (did : D) (ty : string) (rslv : resolver) (n' : Z),
+    (i2 (is_auth SK s) = pubx (is_sk SK s) /\ i3 (is_auth SK s) = puby (is_sk SK s) /\
+     claim_in_field q (is_auth SK s) /\
+     wf maxlev (is_ct SK s) /\ tree_in_field q (is_ct SK s) /\
+     In (hi_of poseidon (is_auth SK s), hv_of poseidon (is_auth SK s)) (leaves (is_ct SK s)) /\
+     wf maxlev (is_rt SK s) /\ tree_in_field q (is_rt SK s) /\ 0 <= is_ror SK s < q) ->
+    claim_in_field q c ->
+    published_or_genesis D resolve_did id_from_did genesis_check did (state_of poseidon SK s) ->
+    ty <> ""%string -> lookup_resolver reg ty = Some rslv ->
+    rslv (mkcs ty (claim_nonce (is_auth SK s))) =
+      Some (honest_answer poseidon SK omit s' (claim_nonce (is_auth SK s))) ->
+    wf maxlev (is_rt SK s') -> tree_in_field q (is_rt SK s') -> 0 <= is_ror SK s' < q ->
+    claim_nonce (is_auth SK s) < q -> ~ In (claim_nonce (is_auth SK s)) (keys (is_rt SK s')) ->
+    json_rt (claim_nonce (is_auth SK s)) = Some n' -> n' <> claim_nonce (is_auth SK s) ->
+    verify_bjj poseidon q D SigT sig_verify resolve_did id_from_did genesis_check reg
+      (issue_bjj poseidon D SigT SK sign json_rt omit s c did ty) = Err ENonce.
+Proof. exact bjj_complete_refuted_json_number. Qed.
+Print Assumptions C07_complete_refuted_json_number.
 
 (* Soundness against an honest issuer's claims tree: whatever bundle verifies against the state
    Poseidon[root ct, rt, ror] of a well-formed claims tree ct carries an auth claim that IS a
